@@ -27,7 +27,7 @@ def post(ctx):
         for stats in ("list", "single"):
             for off in ("zero", "cd", "pcd"):
                 for norm in (False, True):
-                    for ubm in ("ml", "map"):
+                    for ubm in ("ml", "map", "ml+seed"):
                         # a covering subset of the 96 combinations: vary one factor at a time around two base points
                         base = [(models, stats, off, norm, ubm)]
                         cases += base
@@ -43,7 +43,14 @@ def post(ctx):
 
         def build(I=I, models=models, stats=stats, off=off, norm=norm, ubm=ubm):
             u = G.mk_gmm(I, "u")
-            um = G.mk_gmm(I, "a", trainer="map", ubm=u) if ubm == "map" else u
+            if ubm == "map":
+                um = G.mk_gmm(I, "a", trainer="map", ubm=u)
+            elif ubm == "ml+seed":
+                # an ML-trained UBM that was warm-started from another GMM (GMMMachine(ubm=...) without the MAP trainer):
+                # it is its OWN parameters that the property is about
+                um = G.mk_gmm(I, "a", trainer="ml", ubm=u)
+            else:
+                um = u
             if models == "array3":
                 mm = input_arr("mm", (LS.Mm, G.Cc, G.Dd))
             elif models == "array2":
